@@ -195,6 +195,11 @@ func runLZCase(c *LZCase, x *sim.Ctx, foreign bool) *sim.Violation {
 	if v := checkLZHeader(c.W.LZ, img); v != nil {
 		return v
 	}
+	// the termination mode that was configured: an end marker iff EOSMarker is
+	// set or no size is stated (the header cannot say so; the stream must)
+	if rr, rerr := reflzma.DecodeAlone(img, false); rerr == nil && rr.EOS != c.W.LZ.HasMarker() {
+		return sim.Viol("lzma-termination", "marker", "configured end marker=%v (EOSMarker=%v, size in header=%v), the stream ends with a marker: %v", c.W.LZ.HasMarker(), c.W.LZ.EOSMarker, c.W.LZ.HasSize(), rr.EOS)
+	}
 	if !foreign {
 		return decodeWithLibrary("lzma", img, res.Log, c.W.RDict)
 	}
